@@ -76,11 +76,13 @@ class IceDriver:
                     raise Divergence('LayeredIce.layer_at_depth(%g)' % z, 'layer %d' % want, 'another layer')
                 if not ice.contains((0, 0, z)):
                     raise Divergence('LayeredIce.contains inside the stack', True, False)
-            arr = np.array([z, z - 1.0, z + 1.0])
+            arr = np.array([z + 1.0, z, z - 1.0, z, z + 50.0, z, z - 50.0])       # order matters for a stateful lookup
             na = ice.index(arr)
             wa = np.array([ice.index(float(x)) for x in arr])
             if not np.array_equal(np.asarray(na, dtype=float), wa):
                 raise Divergence('LayeredIce.index(array) vs scalar calls', list(wa), list(np.asarray(na, dtype=float)))
+        elif c['kind'] == 'inverse':
+            self.inverse(c, last)
         else:
             zarr, farr = bool(c['sh'][0]), bool(c['sh'][1])
             lo, hi = float(c['rg'][0]), float(c['rg'][1])
@@ -102,3 +104,29 @@ class IceDriver:
                         e = out[i, j] if (zarr and farr) else (out[i] if zarr else (out[j] if farr else float(out)))
                         if abs(e - s) > 1e-9 * abs(s):
                             raise Divergence('%s.attenuation_length entry (%d,%d) vs scalar evaluation' % (name, i, j), s, float(e))
+
+    def inverse(self, c, last):
+        lo, hi = float(c['rg'][0]), float(c['rg'][1])
+        for name, ice in models(c['rg']):
+            if name == 'UniformIce':
+                continue
+            ice.index_above, ice.index_below = 1.0, None        # plain outside indices: the profile decides
+            n_top, n_bot = float(ice.index(hi)), float(ice.index(lo))
+            gap = n_bot - n_top
+            n = {'below_top': n_top - 0.01, 'at_top': n_top, 'middle': n_top + gap / 2, 'at_bottom': n_bot,
+                 'above_bottom': n_bot + min(1e-4, (ice.n0 - n_bot) / 2), 'beyond_asymptote': ice.n0 + 0.01}[c['pos']]
+            if c['pos'] == 'above_bottom' and not n > n_bot:
+                continue          # index at the lower bound indistinguishable from the asymptote
+            self.evals += 1
+            z = float(ice.depth_with_index(n))
+            za = np.asarray(ice.depth_with_index(np.array([n, n_top + gap / 3, n])), dtype=float)
+            where = '%s%s.depth_with_index(%r) [%s]' % (name, tuple(c['rg']), n, c['pos'])
+            if last['inv'] == 'clamp_top' and z != hi:
+                raise Divergence(where, hi, z)
+            if last['inv'] == 'clamp_bottom' and z != lo:
+                raise Divergence(where, lo, z)
+            if last['inv'] == 'inverted':
+                if not (lo - 1e-6 <= z <= hi + 1e-6) or abs(float(ice.index(min(max(z, lo), hi))) - n) > 1e-9:
+                    raise Divergence(where + ': index(depth_with_index(n))', n, (z, float(ice.index(min(max(z, lo), hi)))))
+            if abs(za[0] - z) > 1e-9 * max(1.0, abs(z)) or abs(za[2] - z) > 1e-9 * max(1.0, abs(z)):
+                raise Divergence(where + ': array vs scalar', z, za.tolist())
